@@ -98,6 +98,7 @@ class Acc:
     viol_classes: dict = field(default_factory=dict)
     samples: list = field(default_factory=list)
     states: set = field(default_factory=set)
+    succ: list = field(default_factory=list)  # BFS successors found by workers
 
     def count(self, key, n=1):
         self.counters[key] = self.counters.get(key, 0) + n
@@ -127,6 +128,7 @@ class Acc:
         self.nontrivial |= o.nontrivial
         self.outcomes |= o.outcomes
         self.states |= o.states
+        self.succ.extend(o.succ)
         for k, v in o.counters.items():
             self.counters[k] = self.counters.get(k, 0) + v
         self.viol_count += o.viol_count
